@@ -898,6 +898,17 @@ func (g *vg) bad(label string) bool {
 	return false
 }
 
+// badOften is bad with a stated probability (for faults that only matter in a
+// rare generator mode and would otherwise almost never be drawn there).
+func (g *vg) badOften(label string, num, den int) bool {
+	if g.budget <= 0 || !g.chance("bad:"+label, num, den) {
+		return false
+	}
+	g.budget--
+	g.bads++
+	return true
+}
+
 func (g *vg) chance(label string, num, den int) bool {
 	return g.uniform(label, den) >= den-num
 }
@@ -1348,21 +1359,42 @@ func (g *vg) genIface(i int, used map[string]bool, forceAdvertise bool) dIface {
 		}
 		ifi.CaptivePortal = &s
 	}
+	// one interface in six carries long stanza lists (up to 10 prefixes and
+	// routes): list-length dependent behaviour (sorting, growth, lookup
+	// tables) only shows beyond a handful of entries
+	many := g.chance(l+":many", 1, 6)
 	np := rapid.IntRange(0, 3).Draw(g.t, l+":nprefix")
+	if many {
+		np = 4 + g.uniform(l+":nprefixmany", 7)
+	}
 	for j := 0; j < np; j++ {
 		ifi.Prefixes = append(ifi.Prefixes, g.genPrefix(j))
 	}
-	if len(ifi.Prefixes) > 0 && g.bad(l+":prefixoverlap") {
-		ifi.Prefixes = append(ifi.Prefixes, g.overlapping(l+":po", ifi.Prefixes[0].Prefix, "::/64"))
-		ifi.Prefixes[len(ifi.Prefixes)-1].Valid, ifi.Prefixes[len(ifi.Prefixes)-1].Preferred = dDur{Kind: "omit"}, dDur{Kind: "omit"}
+	if len(ifi.Prefixes) > 0 && (g.bad(l+":prefixoverlap") || (many && g.badOften(l+":prefixoverlapmany", 1, 4))) {
+		with := g.uniform(l+":powith", len(ifi.Prefixes))
+		o := g.overlapping(l+":po", ifi.Prefixes[with].Prefix, "::/64")
+		o.Valid, o.Preferred = dDur{Kind: "omit"}, dDur{Kind: "omit"}
+		at := len(ifi.Prefixes)
+		if many {
+			at = g.uniform(l+":poat", len(ifi.Prefixes)+1)
+		}
+		ifi.Prefixes = append(ifi.Prefixes[:at:at], append([]dPrefix{o}, ifi.Prefixes[at:]...)...)
 	}
 	nr := rapid.IntRange(0, 3).Draw(g.t, l+":nroute")
+	if many {
+		nr = 4 + g.uniform(l+":nroutemany", 7)
+	}
 	for j := 0; j < nr; j++ {
 		ifi.Routes = append(ifi.Routes, g.genRoute(j))
 	}
-	if len(ifi.Routes) > 0 && g.bad(l+":routeoverlap") {
-		o := g.overlapping(l+":ro", ifi.Routes[0].Prefix, "::/0")
-		ifi.Routes = append(ifi.Routes, dRoute{Prefix: o.Prefix, Lifetime: dDur{Kind: "omit"}})
+	if len(ifi.Routes) > 0 && (g.bad(l+":routeoverlap") || (many && g.badOften(l+":routeoverlapmany", 1, 4))) {
+		with := g.uniform(l+":rowith", len(ifi.Routes))
+		o := g.overlapping(l+":ro", ifi.Routes[with].Prefix, "::/0")
+		at := len(ifi.Routes)
+		if many {
+			at = g.uniform(l+":roat", len(ifi.Routes)+1)
+		}
+		ifi.Routes = append(ifi.Routes[:at:at], append([]dRoute{{Prefix: o.Prefix, Lifetime: dDur{Kind: "omit"}}}, ifi.Routes[at:]...)...)
 	}
 	for j, n := 0, rapid.IntRange(0, 2).Draw(g.t, l+":nrdnss"); j < n; j++ {
 		ifi.RDNSS = append(ifi.RDNSS, g.genRDNSS(j))
@@ -1442,7 +1474,16 @@ func genSysState(t *rapid.T) sysState {
 	st := sysState{Fwd: rapid.IntRange(0, 3).Draw(t, "fwd") != 0}
 	nets := []string{"2001:db8:a:1:", "2001:db8:a:2:", "fd00:a:0:1:", "fe80:0:0:0:", "2a00:a:b:c:"}
 	hosts := []string{":1", ":2", "200:ff:fe00:1", ":"}
-	for i, n := 0, rapid.IntRange(0, 6).Draw(t, "naddrs"); i < n; i++ {
+	// one state in five is large (up to 20 addresses in up to 13 networks, up
+	// to 16 routes nested four deep): list-length dependent behaviour
+	large := rapid.IntRange(0, 4).Draw(t, "large") == 4
+	naddrs := rapid.IntRange(0, 6).Draw(t, "naddrs")
+	if large {
+		nets = append(nets, "2001:db8:a:3:", "2001:db8:a:4:", "2001:db8:b:1:", "2001:db8:b:2:", "fd00:a:0:2:", "fd00:a:0:3:", "2a00:a:b:d:", "2a00:a:b:e:")
+		hosts = append(hosts, ":3", ":4", "200:ff:fe00:2")
+		naddrs = rapid.IntRange(5, 20).Draw(t, "naddrslarge")
+	}
+	for i, n := 0, naddrs; i < n; i++ {
 		if rapid.IntRange(0, 9).Draw(t, "v4") == 0 {
 			st.Addrs = append(st.Addrs, system.IP{Address: netip.MustParsePrefix("192.0.2.1/24")})
 			continue
@@ -1465,7 +1506,13 @@ func genSysState(t *rapid.T) sysState {
 			Tentative: fl("tent"), ValidForever: fl("forever"), StablePrivacy: fl("sp"), ManageTemporaryAddresses: fl("mta")})
 	}
 	rts := []string{"2001:db8:a::/48", "2001:db8:a::/64", "2001:db8:a:1::/64", "2001:db8:b::/56", "fd00:a::/32", "2001:db8:a::/128", "10.0.0.0/8"}
-	for i, n := 0, rapid.IntRange(0, 4).Draw(t, "nroutes"); i < n; i++ {
+	nroutes := rapid.IntRange(0, 4).Draw(t, "nroutes")
+	if large {
+		rts = append(rts, "2001:db8::/32", "2001:db8:b::/48", "2001:db8:b:1::/64", "2001:db8:b:100::/56", "2001:db8:c::/48", "2001:db8:a:2::/64", "2001:db8:a:2::/96",
+			"fd00::/8", "fd00:a:1::/48", "fd00:a:1:1::/64", "fd00:b::/32", "2a00::/16", "2a00:a::/32", "2a00:a:b::/48", "::/0", "::1/128")
+		nroutes = rapid.IntRange(4, 16).Draw(t, "nrouteslarge")
+	}
+	for i, n := 0, nroutes; i < n; i++ {
 		st.Routes = append(st.Routes, system.Route{Prefix: netip.MustParsePrefix(rapid.SampledFrom(rts).Draw(t, "route")), Index: 1})
 	}
 	if rapid.IntRange(0, 3).Draw(t, "mac") != 0 {
